@@ -362,7 +362,10 @@ class StmtMixin:
             return self.scoll_elem(it, "*"), (f"set({it.desc})" if it.kind == "set" else it.desc)
         if isinstance(it, StrOp) and it.op == "enumerate":
             e, d = self.sym_elem(it.args[0], site)
-            idx = Sym({f"index({d})": 1})
+            start = it.args[1] if len(it.args) > 1 else None
+            if start is not None and not (isinstance(start, Cst) and isinstance(start.value, int)):
+                raise AnalysisError(f"enumerate() with a non-constant start at {site}")
+            idx = Sym({f"index({d})": 1}, start.value if start is not None else 0)
             return PTuple([idx, e]), d
         if isinstance(it, StrOp) and it.op in ("reversed", "sorted"):
             e, d = self.sym_elem(it.args[0], site)
@@ -660,6 +663,13 @@ class StmtMixin:
                 return PList(li + ri)
         if isinstance(op, ast.Mod) and self.is_stringy(l):
             return StrOp("%", [l, r])
+        if isinstance(op, ast.Mult):
+            # a concrete sequence repeated a symbolic number of times: a run of its elements
+            seq, n = (l, r) if isinstance(l, (PTuple, PList)) else (r, l)
+            if isinstance(seq, (PTuple, PList)) and isinstance(n, (Sym, Cst)) and all(isinstance(i, Cst) for i in seq.items):
+                over = f"range({n.key() if isinstance(n, Sym) else n.value})"
+                rep = Rep(list(seq.items), over, None)
+                return PTuple([rep]) if isinstance(seq, PTuple) else PList([rep])
         if isinstance(op, ast.BitOr):
             return Unknown("union-type")
         if isinstance(l, (Unknown, SVal)) or isinstance(r, (Unknown, SVal)):
